@@ -19,6 +19,10 @@ import (
 var ConnectionTimeout = 5 * time.Minute          // ConnectionTimeout specifies that connections will timeout 2 minutes after we've seen the last contact from the user
 var OldConnectionTimeout = 6 * ConnectionTimeout // Old connections will also timeout after a certain time
 
+// MaxDownstreamFragmentSize is the largest downstream fragment a client may ask for. A DNS message cannot be longer
+// than 65535 bytes anyway.
+const MaxDownstreamFragmentSize = 0xFFFF
+
 // ServerDnsListener will simulate connections over a DNS server request/response loop
 type ServerDnsListener struct {
 	Communicator      ServerCommunicator   // Communictor does IO. This allows us to abstract away the connection logic
@@ -345,6 +349,8 @@ func (s *ServerDnsListener) testDownstreamFragmentSize(v *commands.TestDownstrea
 	u, err := s.validateAndGetUser(v.UserId, remoteAddr)
 	if err != nil {
 		resp.Err = err
+	} else if v.FragmentSize > MaxDownstreamFragmentSize {
+		resp.Err = commands.BadFrag
 	} else {
 		resp.Data = make([]byte, v.FragmentSize)
 		v := byte(107)
